@@ -90,9 +90,9 @@ type inCase struct {
 }
 
 type outcome struct {
-	v                verdict
-	tokOK, protoOK   bool
-	protoErr         string
+	v              verdict
+	tokOK, protoOK bool
+	protoErr       string
 }
 
 var memoKey string
@@ -330,17 +330,66 @@ func TestHostileConstants(t *testing.T) {
 		}, checkFrame)
 }
 
+// every byte value at every position of the escape forms of a string literal: exhaustive
+func TestEscapeBytes(t *testing.T) {
+	strFrames := []struct {
+		typ     string
+		discard bool
+		frame   string
+	}{
+		{"goproto.proto.test.TestAllTypes", false, `{"optional_string":%s}`},
+		{"goproto.proto.test.TestAllTypes", false, `{"map_string_string":{%s:"v"}}`},
+		{"goproto.proto.test.TestAllTypes", true, `{"zz":%s}`},
+		{"goproto.proto.test.TestAllTypes", true, `{%s:1}`},
+		{"google.protobuf.Value", false, `%s`},
+		{"google.protobuf.Struct", false, `{%s:[%s]}`},
+		{"google.protobuf.StringValue", false, `%s`},
+		{"google.protobuf.Any", false, `{"@type":"type.googleapis.com/google.protobuf.StringValue","value":%s}`},
+	}
+	templates := []struct {
+		text string
+		at   []int // byte offsets that take every value
+	}{
+		{`"\u00e9"`, []int{1, 2, 3, 4, 5, 6}},          // backslash, u, four hex digits
+		{`"\ud834\udd1e"`, []int{7, 8, 9, 10, 11, 12}}, // the second half of a surrogate pair
+		{`"a\nb"`, []int{2, 3}},                        // the character after a backslash
+		{`"axb"`, []int{2}},                            // a raw byte in the body
+		{`"\u0041\u0042"`, []int{6, 7, 8}},             // where one escape ends and the next begins
+	}
+	pbt.Enumerate(t, "escape-bytes",
+		"string literals in which one byte of an escape form (backslash, 'u', each of the four hex digits, both halves of a surrogate pair, the character after a backslash, a raw body byte) takes every value 0..255, in every string-bearing frame (scalar field, map key, unknown member, Value, Struct key and element, StringValue, Any payload); same oracle as unmarshal-accepts-only-json; every case non-trivial",
+		true,
+		func(yield func(frameCase, bool) bool) {
+			for _, f := range strFrames {
+				for _, tp := range templates {
+					for _, at := range tp.at {
+						for b := 0; b < 256; b++ {
+							k := []byte(tp.text)
+							k[at] = byte(b)
+							if !yield(frameCase{Type: f.typ, Discard: f.discard, Frame: f.frame, Const: string(k)}, true) {
+								return
+							}
+						}
+					}
+				}
+			}
+		}, func(c frameCase) error {
+			in := []byte(strings.ReplaceAll(c.Frame, "%s", c.Const))
+			return checkInput(inCase{Type: c.Type, Discard: c.Discard, Input: in})
+		})
+}
+
 // ---------------------------------------------------------------------------------------------
 // Marshal outputs
 
 type outCase struct {
-	Type           string
-	M              *model.Msg
-	Indent         string
-	ProtoNames     bool
-	EnumNumbers    bool
-	EmitUnpop      bool
-	EmitDefaults   bool
+	Type         string
+	M            *model.Msg
+	Indent       string
+	ProtoNames   bool
+	EnumNumbers  bool
+	EmitUnpop    bool
+	EmitDefaults bool
 }
 
 type outResult struct {
